@@ -349,7 +349,7 @@ def r10_5_tiling(chk):
             if l[0] == "raise":
                 continue
             if not isinstance(res, SliceObjV) or not isinstance(res.start, IntV) or not isinstance(res.stop, IntV):
-                raise AnalysisError("chunk bounds helper does not return slice(int, int)")
+                raise AnalysisError(f"chunk bounds helper does not return slice(int, int): {res!r} for start={start!r} stop={stop!r}")
             st_e = start.e
             sp_e = stop.e if isinstance(stop, IntV) else n
             tag = f"{mode}:{norm_expr(st_e)}..{norm_expr(sp_e)}"
